@@ -21,7 +21,7 @@ RULE = (
 )
 ASSUMPTIONS = ["correlation cases whose centred prediction row is identically zero (0/0 diagonal) are detected and skipped"]
 REQUIRED = {"evaluation_cases": {"quick": 300, "thorough": 8000}, "single_effect_cases": {"quick": 300, "thorough": 8000}, "synergy_cases": {"quick": 300, "thorough": 8000}, "correlation_cases": {"quick": 60, "thorough": 1500}, "combinatoric_space_cases": {"quick": 100, "thorough": 2500}}
-N_CASES = {"quick": 480, "thorough": 12000}
+N_CASES = {"quick": 1920, "thorough": 24000}
 
 
 def fmean(xs):
